@@ -61,13 +61,15 @@ ArbComposite == { MkList(<<>>), MkList(<<MkInt(1)>>), MkTuple(<<MkStr("s_a"), Mk
                   MkSeq("other", <<MkInt(1)>>), MkMap("proxy", << <<MkStr("s_a"), MkInt(1)>> >>) }
 Arb == ArbAtoms \cup ArbComposite
 
+NastyStr == { MkStr(tk) : tk \in {"s_uni", "s_ml", "s_sp", "s_yes", "s_null", "s_tilde", "s_1e3", "s_date", "s_colon", "s_empty", "s_5"} }
+
 ScalarMembers(k) ==
   CASE k = "none"  -> {MkNone}
     [] k = "bool"  -> {MkBool("T"), MkBool("F")}
     [] k = "int"   -> {MkInt(0), MkInt(5), MkInt(-3)}
     [] k = "float" -> {F15, F20, MkInt(5), FInf}
     [] k = "complex" -> {C12, F15, MkInt(5)}
-    [] k = "str"   -> {MkStr("s_a"), MkStr("s_empty")}
+    [] k = "str"   -> IF Focus = "io" THEN NastyStr \cup {MkStr("s_a")} ELSE {MkStr("s_a"), MkStr("s_empty")}
     [] k = "bytes" -> {MkBytes("b_x"), MkBArr("b_x")}
     [] k = "bytearray" -> {MkBytes("b_x"), MkBArr("b_x")}
     [] k = "decimal"  -> {MkInt(5), F15, MkStr("s_dec"), MkStr("s_5")}
@@ -386,6 +388,11 @@ NameLeaves == { NamedCls(csp, fsp, bm, lay, "F") : csp \in ClassSpells, fsp \in 
               \cup { NamedCls(csp, fsp, "plain", lay, "T") : csp \in ClassSpells, fsp \in {NoFS, [NoFS EXCEPT !.k = "aliases", !.names = <<"s_w">>]}, lay \in Layouts }
 NameLeavesAll == { NamedCls(csp, fsp, bm, lay, ex) : csp \in ClassSpells, fsp \in FieldSpells, bm \in BModes, lay \in Layouts, ex \in {"F", "T"} }
 
+(* C19: JSON / YAML representable types (string keys, no bytes / complex), with awkward but legal texts *)
+IOLeaves == { TStr, TInt, TFloat, TS("bool"), TS("none"), TS("date"), TS("fraction"), TS("decimal"), EnumS, LitIS,
+              TSeq("list", TStr), TSeq("tuplevar", TFloat), TSeq("set", TInt), TDict("dict", TStr, TFloat), TDict("dict", TStr, TStr),
+              TOpt(TStr), TTuple(<<TInt, TStr>>), KAlias, KTup, KNest, KOpt, KKw, KExcl,
+              TCls("KStr", << Fld("s_a", TStr, NoDef), Fld("s_b", TSeq("list", TStr), DefFac(MkList(<<>>))) >>, <<"struct">>, "struct") }
 (* C04: adversarial leaves *)
 ClsHook(c) == [TCls("KH", << Fld("s_a", TInt, NoDef), Fld("s_b", TInt, DefVal(MkInt(5))) >>, <<"struct", "tuple">>, "struct")
                  EXCEPT !.hook = [k |-> "rejectif", f |-> "s_a", c |-> c]]
@@ -414,6 +421,7 @@ Leaves ==
     [] Focus = "cls"     -> ClsLeaves
     [] Focus = "construct" -> ClsLeaves
     [] Focus = "names"   -> NameLeaves
+    [] Focus = "io"      -> IOLeaves
     [] Focus = "namesall" -> NameLeavesAll
 
 Wrap(T) ==
@@ -433,7 +441,7 @@ WrapFew(T) ==
 WrapOf(T, d) ==
   CASE Focus = "matrix" -> Contexts(T)
     [] Focus \in {"unionq", "uniont"} -> UnionNest(T)
-    [] Focus \in {"condq", "condt", "exc", "tagged", "cls", "names", "namesall"} -> WrapFew(T)
+    [] Focus \in {"condq", "condt", "exc", "tagged", "cls", "names", "namesall", "io"} -> WrapFew(T)
     [] OTHER -> IF d = 0 \/ OuterWrap = "all" THEN Wrap(T) ELSE WrapFew(T)
 
 (* C14: constructions of a class: which init fields are supplied, how many of them positionally, *)
